@@ -19,7 +19,7 @@ from ..core import EventLog, InvalidSpec, RunResult, Violation, call, canon, exc
 PROP = "C20"
 TIERS = {"quick": 30000, "thorough": 1500000}
 WALL_CAP = {"quick": 900, "thorough": 6 * 3600}
-SHRINK_BUDGET = 400
+SHRINK_BUDGET = 250
 STALL_SECONDS = 180
 
 COMPONENTS = {
